@@ -2,8 +2,9 @@
 from harness import gen_world, spec_world
 
 MODEL = 'world'
-ASSUMPTIONS = ['lifecycle callbacks and processors are passive (they log, may raise on script, but do not call '
-               'back into the world); re-entrant callbacks are covered by the dispatcher model (C03/C04/C10)',
+ASSUMPTIONS = ['lifecycle callbacks and processors log, may raise on script and may call world.delete_entity(e) '
+               '(deferred) on script; they make no other call back into the world - general re-entrant '
+               'callbacks are covered by the dispatcher model (C03/C04/C10)',
                'an instance is attached to at most one entity at a time (generator respects it; the model '
                'mirrors the code in either case)',
                'class hierarchies carry __events__ along a single lineage',
